@@ -339,7 +339,12 @@ pub fn supervise(args: &[String], cmd: &str, stall_secs: u64) {
     let exe = std::env::current_exe().unwrap();
     let mut start = 0u64;
     let mut incidents = 0;
+    // an item that ran into the watchdog is run ONCE more with a ten times longer stall period before it is recorded as
+    // an incident: on a heavily loaded machine even a trivial run can be starved for a stall period (seen with load
+    // averages of 40-50), and a flaky rejection would discredit the real ones; a genuine hang times out again
+    let mut retried: Option<u64> = None;
     loop {
+        let stall_secs = if retried == Some(start) { stall_secs * 10 } else { stall_secs };
         let _ = std::fs::write(&prog, format!("{start}"));
         // liveness: the work item advances, or the solver proxy keeps answering (it touches the heartbeat file after every
         // answer).  A run that is merely slow on a loaded machine is not a stuck run; one work item may still not take
@@ -365,6 +370,16 @@ pub fn supervise(args: &[String], cmd: &str, stall_secs: u64) {
         match status {
             Some(st) if st.success() => break,
             other => {
+                if other.is_none() && retried != Some(done) {
+                    // cut a partial last line, then run the same item again with the longer period
+                    if let Ok(bytes) = std::fs::read(&out_path) {
+                        let keep = bytes.iter().rposition(|b| *b == b'\n').map(|p| p + 1).unwrap_or(0);
+                        if keep != bytes.len() { let _ = std::fs::write(&out_path, &bytes[..keep]); }
+                    }
+                    retried = Some(done);
+                    start = done;
+                    continue;
+                }
                 let kind = if other.is_none() { "timeout" } else { "abort" };
                 // a worker killed in the middle of a write leaves a partial last line: cut it off
                 if let Ok(bytes) = std::fs::read(&out_path) {
